@@ -378,3 +378,14 @@ _upd('C20',
      'traversal loop terminates and never raises on well-formed circuits. Event logs of the real traversals (all hooks) and the cycle check '
      'are compared with the model on DAGs and cyclic netlists on every run.',
      'The tie between the model\'s event log and the hooks the Python generator calls is by correspondence.')
+_upd('C17',
+     'Theorems (every table, any number of outputs and rows; every circuit): normalisation followed by denormalisation is the identity on the '
+     'outputs\' truth tables (negation, stable sort, duplicate removal and their inverses); normalised outputs start with False; the recorded '
+     'permutation is one; denormalize(circuit) leaves the inputs alone, keeps the circuit well formed and puts the denormalised values on the '
+     'outputs (fresh or reused not_<o> gates), so an entry whose stored circuit computes the normalised table yields a circuit computing the '
+     'requested table, every output in the requested order (c17_lookup_entry_correct). The finite quantifier over the 2 x 349,724 shipped '
+     'entries (decode, well-formedness, basis, truth table = key) is discharged by executing the code\'s and the Lean model\'s decoder + '
+     'evaluator + checker over the entries (quick: all entries with <= 2 inputs + seeded sample; thorough: all) and lookups are run on the real '
+     'databases incl. don\'t-care patterns with all completions.',
+     'The sweep over the shipped entries is an execution, not a kernel proof (partial); that denormalize never raises on a matching entry and '
+     'the don\'t-care lookup are correspondence/search only.')
